@@ -1080,3 +1080,6 @@ mod tests {
     }
 }
 
+
+#[cfg(uflow_verif)]
+pub use crc::compute as crc_compute;
